@@ -165,7 +165,7 @@ Fixpoint completions (tr : list ev) : list bool :=
 Definition owed_g (rp : bool) (b : beh) : list bool :=
   match b with
   | BOk | BOkPanic | BTwice => [false]
-  | BErr | BPanic => [true]
+  | BErr | BPanic | BPanicWith _ => [true]
   | BNever => []
   | BOkBad => [rp]   (* a result the completion function cannot deliver (it panics): an error instead *)
   | BDefer => []     (* owed later: the handler kept the completion function *)
